@@ -156,6 +156,26 @@ def run_job(job):
                     nasim.make_benchmark_scenario, job["name"], job["seed"])
             out.append(fingerprint(scen))
         return out
+    if kind == "gen_fault":
+        from dsim import seams
+        p = dict(job["params"])
+        if p.get("address_space_bounds") is not None:
+            p["address_space_bounds"] = tuple(p["address_space_bounds"])
+        for _ in range(2):
+            try:
+                if job["mode"] == "interrupted":
+                    with seams.LineBudget("nasim/scenarios/generator.py",
+                                          int(job["lines"])):
+                        scen = nasim.generate_scenario(**p)
+                else:
+                    scen = configs.guarded_generate(nasim.generate_scenario,
+                                                    **p)
+                out.append(fingerprint(scen))
+            except seams.BudgetExceeded:
+                out.append("INTERRUPTED")
+            except Exception as e:
+                out.append("REJECTED:" + type(e).__name__)
+        return out
     if kind == "traj":
         spec = job["spec"]
         modes = job["modes"]
